@@ -32,6 +32,7 @@ import (
 	"sync"
 	"testing"
 	"time"
+	"unicode/utf8"
 
 	"Havoc/pkg/agent"
 	"Havoc/pkg/handlers"
@@ -102,17 +103,23 @@ var (
 	ignoredNames = []string{"Connection", "Accept-Encoding"} // documented in handlers/http.go (IgnoreHeaders)
 
 	uriPool = []string{"/", "/index.php", "/api/v1/Update", "/Collect/data.aspx", "/js/jquery-3.6.0.min.js",
-		"/search?q=havoc", "/submit.php?id=1&lang=en", "/a", "/a/b", "/owa/"}
+		"/search?q=havoc", "/submit.php?id=1&lang=en", "/a", "/a/b", "/owa/",
+		"/skins/ask.js", "/caf\u00e9/\u03bcs/\u03c3\u03c5\u03c2"}
 	uaPool = []string{
 		"Mozilla/5.0 (Windows NT 6.1; WOW64) AppleWebKit/537.36 (KHTML, like Gecko) Chrome/96.0.4664.110 Safari/537.36",
 		"Mozilla/5.0 (Windows NT 10.0; Win64; x64; rv:109.0) Gecko/20100101 Firefox/115.0",
 		"curl/8.0", "Agent: x", "UA",
+		"Sk\u00fdpe/8.1 (\u00b5Kernel; \u03ba\u03cc\u03c3\u03bc\u03bf\u03c2)",
 	}
 	hdrNamePool = []string{"Content-type", "X-Havoc", "x-request-id", "Accept", "Accept-Language", "Cache-Control",
 		"X-Meta", "Referer", "X-Api-Key", "Connection", "Accept-Encoding", "accept-encoding", "CONNECTION"}
 	hdrValuePool = []string{"*/*", "true", "Keep-Alive", "gzip, deflate", "text/html,application/xhtml+xml",
 		"en-US,en;q=0.5", "https://example.com/a", "a: b", "k: v: w", "host:8080", "no-cache", "AbC123", "Bearer: TokenX",
-		"http://10.0.0.1:8080/cb?x=1"}
+		"http://10.0.0.1:8080/cb?x=1",
+		// letters that have Unicode case-folding partners besides their ASCII pair (s, k), non-ASCII letters
+		// (sigma / final sigma, micro sign, mu, sharp s) and composed letters (NFC)
+		"session=Kiosk-7", "Basic c2VjcmV0", "keep-asking", "sk", "\u03c3\u03cd\u03c3\u03c4\u03b7\u03bc\u03b1-\u03ba\u03c2", "10\u00b5s", "\u03bcs=250",
+		"Stra\u00dfe 7", "caf\u00e9-cr\u00e8me", "Zoe\u0308"}
 	respNamePool  = []string{"Server", "X-Powered-By", "Location", "Content-Type", "Cache-Control", "X-Frame-Options", "Link", "X-Trace"}
 	respValuePool = []string{"nginx", "ASP.NET", "https://example.com/login", "text/html; charset=utf-8", "max-age=0, no-cache",
 		"SAMEORIGIN", "<https://cdn.example.com:8443/a.css>; rel=preload", "a:b:c", "12:30:45", "x: y"}
@@ -430,7 +437,13 @@ func genReq(t *rapid.T, c Cfg, idx int) Req {
 	}
 	var applied []string
 	for i := 0; i < nm; i++ {
-		m := rapid.SampledFrom(applicable(c, &r)).Draw(t, "mut")
+		m := rapid.SampledFrom(append(applicable(c, &r), applicableUni(c, &r)...)).Draw(t, "mut")
+		if uniMuts[m] {
+			if lbl, ok := applyUniMut(t, c, &r, m); ok {
+				applied = append(applied, lbl)
+			}
+			continue
+		}
 		if applyMut(t, c, &r, m) {
 			applied = append(applied, m)
 		}
@@ -541,6 +554,12 @@ func applyMut(t *rapid.T, c Cfg, r *Req, m string) bool {
 			} else if len(v) > 1 {
 				cut = rapid.IntRange(1, len(v)-1).Draw(t, "cut")
 			} else {
+				return false
+			}
+			for cut > 0 && !utf8.RuneStart(v[cut]) { // never inside a multi-byte letter: the case stays valid UTF-8 (JSON replay)
+				cut--
+			}
+			if cut == 0 {
 				return false
 			}
 			nv := strings.TrimRight(v[:cut], " \t") // net/http trims optional whitespace
@@ -658,6 +677,8 @@ func judge(c Cfg, r Req) verdict {
 		switch {
 		case !r.HasUA:
 			bad = append(bad, "ua-missing")
+		case r.UA != c.UserAgent && strings.EqualFold(r.UA, c.UserAgent) && strings.ToLower(r.UA) != strings.ToLower(c.UserAgent):
+			bad = append(bad, "ua-unicode-fold-partner")
 		case r.UA != c.UserAgent:
 			bad = append(bad, "ua")
 		}
@@ -675,8 +696,18 @@ func judge(c Cfg, r Req) verdict {
 		case !ok:
 			bad = append(bad, "header-missing")
 		case got == want:
+		case strings.ToLower(got) == strings.ToLower(want):
+			// the code documents a case-insensitive comparison: the same value in another letter case,
+			// i.e. both have the same lower-case form
+			if isASCII(got) && isASCII(want) {
+				grey = append(grey, "header-value-case")
+			} else {
+				grey = append(grey, "header-value-case-non-ascii")
+			}
 		case strings.EqualFold(got, want):
-			grey = append(grey, "header-value-case") // the code documents a case-insensitive comparison
+			// equal under Unicode simple case folding only (long s for s, final sigma for sigma, micro sign
+			// for mu, ...): not the configured value in any letter case
+			bad = append(bad, "header-value-unicode-fold-partner")
 		case len(got) < len(want) && strings.EqualFold(want[:len(got)], got) && strings.HasPrefix(want[len(got):], ": "):
 			bad = append(bad, "header-truncated-at-colon-space") // exactly or up to letter case
 		case len(got) < len(want) && strings.EqualFold(want[:len(got)], got):
@@ -1027,6 +1058,7 @@ func classify(c Case) core.Class {
 			break
 		}
 	}
+	cl.Labels = append(cl.Labels, unicodeCfgLabels(c.Cfg)...)
 	var fp []string
 	for _, r := range c.Reqs {
 		v := judge(c.Cfg, r)
@@ -1061,6 +1093,40 @@ func classify(c Case) core.Class {
 	return cl
 }
 
+// unicodeCfgLabels: does the configuration offer the Unicode request classes something to work on?
+func unicodeCfgLabels(c Cfg) []string {
+	var out []string
+	fold, nonASCII := false, false
+	for _, h := range c.Headers {
+		n, v := splitCfgHeader(h)
+		if isIgnored(n) {
+			continue
+		}
+		if hasFoldPartnerLetter(v) {
+			fold = true
+		}
+		if !isASCII(v) {
+			nonASCII = true
+		}
+	}
+	if fold {
+		out = append(out, "cfg-header-value-has-letter-with-fold-partner")
+	}
+	if nonASCII {
+		out = append(out, "cfg-header-value-non-ascii")
+	}
+	if !isASCII(c.UserAgent) {
+		out = append(out, "cfg-ua-non-ascii")
+	}
+	for _, u := range effectiveUris(c) {
+		if !isASCII(u) {
+			out = append(out, "cfg-uri-non-ascii")
+			break
+		}
+	}
+	return out
+}
+
 func TestMain(m *testing.M) {
 	code := m.Run()
 	if secureLoot != "" {
@@ -1072,13 +1138,13 @@ func TestMain(m *testing.M) {
 func TestC12a(t *testing.T) {
 	core.Run(t, core.Spec[Case]{
 		Property: "C12", Sub: "a",
-		Rule: "every field of HTTPConfig is drawn: besides those below, 1-3 Hosts with/without port, HostHeader (unset / a name / name:port / equal to a host / resembling one), rotation, PortConn, proxy settings, kill date, working hours, method spelling, TLS (rarely - about 1/3000 quick, 1/1500 thorough: a real certificate is generated); requests additionally draw Request.Host (the canonical one = HostHeader or a host, case variant, port added/removed, one of Hosts, the bind address, garbage, empty, another host) and 0-3 further headers with names that are not configured (X-Forwarded-Host, Referer, Origin, Cookie, Content-Type, X-Real-IP, Forwarded, Authorization): by the statement none of these influences admission. Admission-relevant part: listener configuration (0-4 URIs with/without query or the [\"\"] form, user agent set/unset, 0-4 request headers 'Name: value' incl. the ignored Connection/Accept-Encoding and values containing ': ' and ':', 0-3 response headers with values containing ':', redirector flag) on the real handlers.HTTP after Start(); 1-6 requests generated around that configuration: the canonical Demon request, or with one / several of {GET,PUT,HEAD, wrong path, extra query, path case, path suffix, header missing/wrong/case/truncated/extended, user agent wrong/missing/case, ignored header altered}, IPv4 and IPv6 peers, X-Forwarded-For present or not; body = valid registration. Oracle from the statement: admitted => all constraints hold; all hold => admitted with 200 + registration reply + every response header with its full value + ExternalIP = peer IP (or X-Forwarded-For iff redirector); otherwise 404 and no recorder event. Non-trivial: >=1 configured constraint and a request that satisfies all or violates exactly one; distinct = (constraint bucket, redirector, config feature, verdict kind of the first non-trivial request)",
+		Rule: "every field of HTTPConfig is drawn: besides those below, 1-3 Hosts with/without port, HostHeader (unset / a name / name:port / equal to a host / resembling one), rotation, PortConn, proxy settings, kill date, working hours, method spelling, TLS (rarely - about 1/3000 quick, 1/1500 thorough: a real certificate is generated); requests additionally draw Request.Host (the canonical one = HostHeader or a host, case variant, port added/removed, one of Hosts, the bind address, garbage, empty, another host) and 0-3 further headers with names that are not configured (X-Forwarded-Host, Referer, Origin, Cookie, Content-Type, X-Real-IP, Forwarded, Authorization): by the statement none of these influences admission. Admission-relevant part: listener configuration (0-4 URIs with/without query or the [\"\"] form, user agent set/unset, 0-4 request headers 'Name: value' incl. the ignored Connection/Accept-Encoding and values containing ': ' and ':', 0-3 response headers with values containing ':', redirector flag) on the real handlers.HTTP after Start(); 1-6 requests generated around that configuration: the canonical Demon request, or with one / several of {GET,PUT,HEAD, wrong path, extra query, path case, path suffix, header missing/wrong/case/truncated/extended, user agent wrong/missing/case, ignored header altered; Unicode classes: a configured header value / the user agent / the URI with one letter replaced by a Unicode simple-case-folding partner outside the ASCII pair (long s U+017F for s, Kelvin sign U+212A for k, final sigma / sigma, micro sign / mu, Greek symbol variants) or by a confusable (fullwidth form, combining mark appended, the other normalisation form NFC/NFD, Cyrillic / Greek / Turkic look-alike incl. dotted capital I), the URI also percent-encoded - the pools of configured values contain s / k / sigma / micro / sharp s / composed letters for that}, IPv4 and IPv6 peers, X-Forwarded-For present or not; body = valid registration. Oracle from the statement: a header value counts as 'the configured value' when it is byte-equal (must admit) or has the same lower-case form (the documented case-insensitive comparison: grey, accepted either way - that includes the Kelvin sign for k and dotted capital I for i, whose lower-case forms are k and i); a value that merely case-FOLDS to the configured one (long s, final sigma, micro sign) or is a confusable of it is a different value and must get the decoy, and the user agent and the URI compare exactly; admitted => all constraints hold; all hold => admitted with 200 + registration reply + every response header with its full value + ExternalIP = peer IP (or X-Forwarded-For iff redirector); otherwise 404 and no recorder event. Non-trivial: >=1 configured constraint and a request that satisfies all or violates exactly one; distinct = (constraint bucket, redirector, config feature, verdict kind of the first non-trivial request)",
 		Gen:  gen, Check: check, Classify: classify,
 		Assumptions: []string{
 			"requests are delivered in-process through GinEngine.ServeHTTP with canonical header names and trimmed values, as net/http's server delivers them",
 			"request header names that net/http treats specially (Host, Content-Length, User-Agent, X-Forwarded-For) and duplicate names are outside the configuration generator; Host is configured through HostHeader",
-			"configured headers have the 'Name: value' form; header values are ASCII without leading/trailing blanks",
-			"grey zones accepted either way: a request whose path equals a configured URI but carries an extra query string; a header value differing only in letter case (documented as case-insensitive); URIs == [\"\"] means none configured",
+			"configured headers have the 'Name: value' form; header values are valid UTF-8 (mostly ASCII, some with Greek letters, micro sign, sharp s, composed or decomposed accented letters) without leading/trailing blanks; bytes >= 0x80 are legal in header values and request-targets for Go's net/http server",
+			"grey zones accepted either way: a request whose path equals a configured URI but carries an extra query string; a header value differing only in letter case (documented as case-insensitive), read as: both values have the same lower-case form under strings.ToLower - equality under Unicode case FOLDING alone is not 'another letter case' and must be rejected; URIs == [\"\"] means none configured",
 			"a request that differs from the canonical form only in the two documented ignored headers counts as satisfying",
 			"admission depends on method, URI, user agent and the configured request headers only (statement; HEAD reads nothing else): Request.Host, HostHeader, Hosts, proxy, TLS and further request headers do not change the verdict",
 			"behind a redirector a request always carries X-Forwarded-For with a single address",
